@@ -283,7 +283,7 @@ func (m *Machine) sprintf(format string, args []value) value {
 	var targs []value
 	for i, a := range args {
 		if nat, ok := m.nativeArg(a); ok && verbs != nil && i < len(verbs) {
-			targs = append(targs, fmt.Sprintf("%"+string(verbs[i]), nat))
+			targs = append(targs, fmt.Sprintf(verbs[i].text, nat))
 			continue
 		}
 		if it, ok := a.(iface); ok {
@@ -295,24 +295,57 @@ func (m *Machine) sprintf(format string, args []value) value {
 	return &tstr{format: "sym:" + format, args: targs}
 }
 
-// simpleVerbs returns the verbs of a format that uses only plain %s %d %v (and %%), else nil.
-func simpleVerbs(format string) []byte {
-	var vs []byte
+// fmtVerb is one verb of a plain format: %s %v %d %x %X, the integer ones optionally zero-padded to
+// a width (%06x).
+type fmtVerb struct {
+	verb  byte
+	zero  bool
+	width int
+	text  string // the verb as written, e.g. "%06x"
+}
+
+// simpleVerbs returns the verbs of a format that uses only such verbs (and %%), else nil.
+func simpleVerbs(format string) []fmtVerb {
+	var vs []fmtVerb
 	for i := 0; i < len(format); i++ {
 		if format[i] != '%' {
 			continue
 		}
-		if i+1 >= len(format) {
+		st := i
+		i++
+		if i >= len(format) {
 			return nil
 		}
-		switch format[i+1] {
-		case 's', 'd', 'v':
-			vs = append(vs, format[i+1])
-		case '%':
+		if format[i] == '%' {
+			continue
+		}
+		v := fmtVerb{}
+		if format[i] == '0' {
+			v.zero = true
+			i++
+		}
+		for i < len(format) && format[i] >= '0' && format[i] <= '9' {
+			v.width = v.width*10 + int(format[i]-'0')
+			i++
+		}
+		if i >= len(format) {
+			return nil
+		}
+		switch format[i] {
+		case 's', 'v':
+			if v.zero || v.width != 0 {
+				return nil
+			}
+		case 'd', 'x', 'X':
+			if v.width != 0 && !v.zero {
+				return nil // space padding: not modelled
+			}
 		default:
 			return nil
 		}
-		i++
+		v.verb = format[i]
+		v.text = format[st : i+1]
+		vs = append(vs, v)
 	}
 	return vs
 }
